@@ -5,7 +5,8 @@ PROP = dict(
     lean_module="AbraProofs.Properties.C29",
     required_theorems=["C29_block_comment_skipped", "C29_line_comment_skipped", "C29_blank_skipped",
                        "C29_block_comment_transparent", "C29_line_comment_transparent",
-                       "C29_comment_insertion_partial", "C29_separator_choice"],
+                       "C29_comment_insertion_partial", "C29_block_comment_insertion", "C29_line_comment_insertion",
+                       "C29_separator_choice"],
     harness_bin="c29",
     # compared observable = the complete token-kind stream incl. payloads of arbitrary programs; the
     # property itself (kinds unchanged by comment insertion, outcome unchanged) is checked directly by the
@@ -36,12 +37,13 @@ PROP = dict(
     design_ref="DESIGN.md §6 C29",
     level_text="Theorems about the Lean lexer model: block comments (any text without `*/`), line comments, blanks and line "
                "continuations emit no token and leave the kinds of the rest unchanged, so a comment equals one space in front of "
-               "any input; behind a prefix the lexer splits at that point the whole file keeps its kinds. About the parser model: "
+               "any input, and written at a token boundary of any file it changes no token kind of the whole file. About the parser model: "
                "parse_delimited_list returns the same items for `,`, newline, either followed by blank lines, leading newlines. "
                "Tied to /repo on every run by re-printing /repo's own test programs with inserted comments and varied separators.",
-    level_note="C29_comment_insertion_partial assumes that the prefix before the insertion point is lexed alike in front of `/*` and in "
-               "front of a space (locality of lexOne: OPEN statement in the file); the correspondence exercises exactly that on real "
-               "programs at every kind of boundary.",
+    level_note="C29_block/line_comment_insertion cover a comment written behind a space at any token boundary of any file whose prefix "
+               "holds no triple-quoted literal (locality of lexOne proved for every other token class); prefixes with triple-quoted "
+               "literals and comments glued directly to the preceding token are OPEN (stated in the file) and covered by the "
+               "correspondence, which inserts comments at every kind of boundary of real programs.",
     technique="Lean 4 theorems (stepping lemmas for the tokenizer, induction over comment text / item lists) + differential correspondence and metamorphic testing against the real lexer, parser and VM",
     timeout=3000,
 )
